@@ -328,12 +328,30 @@ def _get_OP_PUSH0_type_args(
             args.append(val if len(val) == 1 else b'\x00')
     return (symbols_to_advance, args)
 
+def _check_push_size(
+        opname: str, size_symbol: str, value: bytes, symbol_index: int
+    ) -> None:
+    """Ensures that the explicit size operand of `OP_PUSH1 [size] [val]`
+        or `OP_PUSH2 [size] [val]` is the size of the value.
+    """
+    yert(len(size_symbol) > 1 and size_symbol[0].lower() in ('d', 'x'),
+        f'{opname} - size must be prefaced with d or x; {size_symbol} is '
+        f'invalid - symbol {symbol_index}')
+    if size_symbol[0].lower() == 'd':
+        size = int(size_symbol[1:])
+    else:
+        size = int.from_bytes(bytes.fromhex(size_symbol[1:]), 'big')
+    yert(size == len(value),
+        f'{opname} - size {size} does not match the {len(value)} byte value'
+        f' - symbol {symbol_index}')
+
 def _get_OP_PUSH1_type_args(
         opname: str, symbols: list[str], symbols_to_advance: int,
         symbol_index: int
     ) -> tuple[int, tuple[bytes]]:
     args = []
     val = None
+    size_symbol = None
 
     if opname == 'OP_PUSH1':
         # human-readable syntax of OP_PUSH1 [size] [val] or OP_PUSH1 [val]
@@ -344,6 +362,7 @@ def _get_OP_PUSH1_type_args(
                 and symbols[1] not in _special_symbols
             ):
             symbols_to_advance += 2
+            size_symbol = symbols[0]
             val = symbols[1]
         else:
             symbols_to_advance += 1
@@ -385,6 +404,8 @@ def _get_OP_PUSH1_type_args(
                 val = bytes(val[1:], 'utf-8')
             args.append(len(val).to_bytes(1, 'big'))
             args.append(val)
+    if size_symbol is not None:
+        _check_push_size(opname, size_symbol, args[1], symbol_index)
     return (symbols_to_advance, args)
 
 def _get_OP_PUSH2_args(
@@ -393,6 +414,7 @@ def _get_OP_PUSH2_args(
     ) -> tuple[int, tuple[bytes]]:
     args = []
     val = None
+    size_symbol = None
 
     if opname == 'OP_PUSH2':
         # human-readable syntax of OP_PUSH2 [size] [val] or OP_PUSH2 [val]
@@ -403,6 +425,7 @@ def _get_OP_PUSH2_args(
                 and symbols[1] not in _special_symbols
             ):
             symbols_to_advance += 2
+            size_symbol = symbols[0]
             val = symbols[1]
         else:
             symbols_to_advance += 1
@@ -446,6 +469,8 @@ def _get_OP_PUSH2_args(
                 f'symbol {symbol_index}')
     args.append(len(val).to_bytes(2, 'big'))
     args.append(val)
+    if size_symbol is not None:
+        _check_push_size(opname, size_symbol, args[-1], symbol_index)
     return (symbols_to_advance, args)
 
 def _get_OP_DIV_FLOAT_args(
